@@ -135,18 +135,26 @@ def run(chk, repo):
     sym2 = E + "EtherCat.assigned_address"
     g = repo.func(sym2)
     chk.analysed(sym2)
-    ok = bool(find("(ret,) = await self.roundtrip(ECCmd.APRD, position, 16, "
-                   "'H', 0)", g, mode="stmt"))
+    rd_ = find("($a,) = await self.roundtrip(ECCmd.APRD, position, 16, "
+               "'H', 0)", g, mode="stmt")
+    ok = len(rd_) == 1 and isinstance(rd_[0][1]["a"], ast.Name)
     chk.ob("R25.4", sym2, "reads the current station address first", ok, g,
            "APRD 0x10")
+    old = rd_[0][1]["a"].id if ok else "ret"
     r0 = [r for r in walk_no_nested(g) if isinstance(r, ast.Return) and any(
-        t and match("ret != 0", e) is not None for e, t in path_facts(r))]
-    ok = len(r0) == 1 and unparse(r0[0].value) == "ret"
+        t and match(f"{old} != 0", e) is not None for e, t in path_facts(r))]
+    ok = len(r0) == 1 and unparse(r0[0].value) == old
     chk.ob("R25.4", sym2, "an existing non-zero address is returned "
-           "unchanged", ok, g, "if ret != 0: return ret")
-    ok = bool(find("ret = await self.find_free_address()", g, mode="stmt")) \
-        and bool(find("self.roundtrip(ECCmd.APWR, position, 16, 'H', ret)",
-                      g))
+           "unchanged", ok, g, f"if {old} != 0: return {old}")
+    fr = find("$b = await self.find_free_address()", g, mode="stmt")
+    ok = len(fr) == 1 and isinstance(fr[0][1]["b"], ast.Name)
+    if ok:
+        new_ = fr[0][1]["b"].id
+        wr = find(f"self.roundtrip(ECCmd.APWR, position, 16, 'H', {new_})", g)
+        last = [r for r in walk_no_nested(g) if isinstance(r, ast.Return)
+                and r.lineno > fr[0][0].lineno]
+        ok = len(wr) == 1 and wr[0][0].lineno > fr[0][0].lineno and bool(
+            last) and all(unparse(r.value) == new_ for r in last)
     chk.ob("R25.4", sym2, "otherwise writes exactly the free address it "
            "returns", ok, g, "APWR 0x10 <- find_free_address()")
     writers = []
